@@ -39,14 +39,31 @@ pub fn dictionary() -> &'static Vec<String> {
     DICT.get_or_init(|| {
         let dir = crate_dir();
         let mut out: Vec<String> = Vec::new();
-        for f in ["src/serialization.rs", "src/format.rs", "src/convert.rs", "src/lib.rs", "src/base.rs"] {
-            let Ok(text) = std::fs::read_to_string(dir.join(f)) else { continue };
+        // every source file of the crate (a special-cased key may be spelled in a helper module)
+        let mut stack = vec![dir.join("src")];
+        let mut files = Vec::new();
+        while let Some(d) = stack.pop() {
+            let Ok(rd) = std::fs::read_dir(&d) else { continue };
+            for p in rd.flatten().map(|e| e.path()) {
+                if p.is_dir() {
+                    stack.push(p);
+                } else if p.extension().map(|e| e == "rs").unwrap_or(false) {
+                    files.push(p);
+                }
+            }
+        }
+        files.sort();
+        for f in files {
+            let Ok(text) = std::fs::read_to_string(&f) else { continue };
+            // the big coefficient tables hold no keys: skip files without a quote-heavy profile cheaply
             extract_literals(&text, &mut out);
         }
+        // hexf64!("0x1.8p3") tables are string literals too: not key names
+        out.retain(|t| !(t.starts_with("0x") || t.starts_with("-0x")));
         out.sort();
         out.dedup();
         out.retain(|t| t != "hi" && t != "lo" && !t.is_empty() && t.len() <= 40);
-        out.truncate(400);
+        out.truncate(1500);
         out
     })
 }
@@ -64,25 +81,89 @@ fn extract_literals(text: &str, out: &mut Vec<String>) {
         }
         if b[i] == '"' {
             let mut j = i + 1;
-            let mut s = String::new();
+            let mut raw = String::new();
             while j < b.len() && b[j] != '"' {
                 if b[j] == '\\' && j + 1 < b.len() {
+                    raw.push(b[j]);
                     j += 1;
                 }
-                s.push(b[j]);
+                raw.push(b[j]);
                 j += 1;
             }
-            out.push(s);
+            out.push(unescape(&raw));
             i = j + 1;
             continue;
         }
-        if b[i] == '\'' && i + 2 < b.len() && b[i + 2] == '\'' && b[i + 1] != '\\' {
-            out.push(b[i + 1].to_string());
-            i += 3;
+        if b[i] == '\'' {
+            // a char literal: 'x', '\n', '\u{feff}', '\x41' (lifetimes like 'a have no closing quote nearby)
+            let mut j = i + 1;
+            let mut raw = String::new();
+            while j < b.len() && j < i + 12 && b[j] != '\'' {
+                if b[j] == '\\' && j + 1 < b.len() {
+                    raw.push(b[j]);
+                    j += 1;
+                }
+                raw.push(b[j]);
+                j += 1;
+            }
+            if j < b.len() && b[j] == '\'' && !raw.is_empty() {
+                let t = unescape(&raw);
+                if t.chars().count() == 1 {
+                    out.push(t);
+                    i = j + 1;
+                    continue;
+                }
+            }
+            i += 1;
             continue;
         }
         i += 1;
     }
+}
+
+/// Decode the escapes of a Rust string/char literal body (\\n \\t \\r \\0 \\\\ \\" \\' \\xNN \\u{…}).
+fn unescape(raw: &str) -> String {
+    let c: Vec<char> = raw.chars().collect();
+    let mut out = String::new();
+    let mut i = 0;
+    while i < c.len() {
+        if c[i] != '\\' || i + 1 >= c.len() {
+            out.push(c[i]);
+            i += 1;
+            continue;
+        }
+        i += 1;
+        match c[i] {
+            'n' => out.push('\n'),
+            't' => out.push('\t'),
+            'r' => out.push('\r'),
+            '0' => out.push('\0'),
+            'x' if i + 2 < c.len() => {
+                let h: String = c[i + 1..i + 3].iter().collect();
+                if let Some(ch) = u8::from_str_radix(&h, 16).ok().map(|b| b as char) {
+                    out.push(ch);
+                }
+                i += 2;
+            }
+            'u' if i + 1 < c.len() && c[i + 1] == '{' => {
+                let mut j = i + 2;
+                let mut h = String::new();
+                while j < c.len() && c[j] != '}' {
+                    if c[j] != '_' {
+                        h.push(c[j]);
+                    }
+                    j += 1;
+                }
+                if let Some(ch) = u32::from_str_radix(&h, 16).ok().and_then(char::from_u32) {
+                    out.push(ch);
+                }
+                i = j;
+            }
+            other => out.push(other),
+        }
+        i += 1;
+    }
+    out
 }
 
 fn random_ident(r: &mut Rng) -> String {
@@ -91,7 +172,7 @@ fn random_ident(r: &mut Rng) -> String {
     let mut s = String::new();
     for _ in 0..n {
         if r.chance(1, 40) {
-            s.push(*r.pick(&['é', 'ß', 'λ', '中', '✓', ' ']));
+            s.push(*r.pick(&['é', 'ß', 'λ', '中', '✓', ' ', '\u{feff}', '\u{200b}', '\u{200d}', '\u{00a0}', '\t', '\u{7f}', '\u{1}']));
         } else {
             s.push(ALPHA[r.usize_below(ALPHA.len())] as char);
         }
@@ -110,16 +191,18 @@ pub fn unknown_name(r: &mut Rng) -> String {
                     random_ident(r)
                 } else {
                     let t = r.pick(d).clone();
-                    match r.below(5) {
+                    match r.below(7) {
                         0 | 1 => t,
                         2 => format!("{t}{}", random_ident(r)),
                         3 => format!("{}{t}", random_ident(r)),
-                        _ => format!("{t}{}", r.pick(&["schema", "comment", "id", "type", "hi", "lo"])),
+                        4 => format!("{t}{}", r.pick(&["schema", "comment", "id", "type", "hi", "lo"])),
+                        5 => format!("{}{t}", r.pick(&["hi", "lo"])),
+                        _ => format!("{t}{}{t}", r.pick(&["hi", "lo"])),
                     }
                 }
             }
             _ => {
-                let prefix = *r.pick(&["", "", "$", "_", "__", "@", "#", "//", "x-", ".", "-", "~", "%"]);
+                let prefix = *r.pick(&["", "", "$", "_", "__", "@", "#", "//", "x-", ".", "-", "~", "%", "\u{feff}", "\u{200b}", " ", "\t"]);
                 let body = if r.chance(1, 3) { (*r.pick(&["schema", "comment", "id", "type", "version", "meta", "hi", "lo", "high", "low"])).to_string() } else { random_ident(r) };
                 format!("{prefix}{body}")
             }
@@ -140,7 +223,8 @@ pub fn state_and_environment_indicators() -> Vec<String> {
     const NEEDLES: &[&str] = &[
         "static ", "thread_local!", "Atomic", "Cell<", "RefCell", "OnceLock", "OnceCell", "Mutex", "RwLock", "lazy_static",
         "std::env", "env::var", "std::time", "Instant", "SystemTime", "std::thread", "thread::current", "type_name", "TypeId",
-        "current_exe", "std::process", "std::fs", "std::net", "target_feature", "target_os", "target_arch", "target_pointer_width",
+        "current_exe", "std::process", "process::exit", "std::fs", "std::net", "IsTerminal", "is_terminal", "is_x86_feature_detected",
+        "is_aarch64_feature_detected", "std::io::stdout", "std::io::stderr", "std::io::stdin", "target_feature", "target_os", "target_arch", "target_pointer_width",
     ];
     let dir = crate_dir().join("src");
     let mut hits = Vec::new();
@@ -170,4 +254,24 @@ pub fn state_and_environment_indicators() -> Vec<String> {
     hits.sort();
     hits.truncate(40);
     hits
+}
+
+/// A near-miss spelling of `key` ("hi" or "lo"): the key wrapped in, prefixed or suffixed by an
+/// invisible or trimmable character, a dictionary token, or a case change. A correct reader treats
+/// it as an unknown field (and then misses the real one).
+pub fn decorated(r: &mut Rng, key: &str) -> String {
+    const INVISIBLE: &[&str] = &["\u{feff}", "\u{200b}", "\u{200d}", "\u{00a0}", " ", "\t", "\n", "\0", "\u{7f}", "_", "$", "@", "#", "-", ".", ":", "/"];
+    for _ in 0..8 {
+        let deco: String = if r.chance(2, 3) || dictionary().is_empty() { (*r.pick(INVISIBLE)).to_string() } else { r.pick(dictionary()).clone() };
+        let name = match r.below(6) {
+            0 | 1 => format!("{deco}{key}"),
+            2 | 3 => format!("{key}{deco}"),
+            4 => format!("{deco}{key}{deco}"),
+            _ => key.to_uppercase(),
+        };
+        if name != "hi" && name != "lo" {
+            return name;
+        }
+    }
+    format!(" {key}")
 }
